@@ -23,6 +23,9 @@ PY = "/venv/bin/python"
 TIERS = ("quick", "thorough")
 
 
+USER_RECURSION_LIMIT = 1000   # CPython's default
+
+
 class Violation(Exception):
     """Raised by an oracle when the property is broken on the current case."""
 
@@ -38,7 +41,32 @@ class HarnessError(Exception):
 
 
 def sha(obj):
-    return hashlib.sha1(json.dumps(obj, sort_keys=True, default=str).encode("utf8", "surrogatepass")).hexdigest()[:16]
+    try:
+        text = json.dumps(obj, sort_keys=True, default=str)
+    except RecursionError:
+        text = _flat_dump(obj)     # nesting deeper than the C encoder's limit (specs of very deep trees)
+    return hashlib.sha1(text.encode("utf8", "surrogatepass")).hexdigest()[:16]
+
+
+def _flat_dump(obj):
+    """Iterative, order-preserving serialisation for hashing only (dict keys sorted)."""
+    out = []
+    stack = [obj]
+    while stack:
+        o = stack.pop()
+        if isinstance(o, dict):
+            out.append("{")
+            stack.append("}")
+            for k in sorted(o, key=str, reverse=True):
+                stack.append(o[k])
+                stack.append("%s:" % (k,))
+        elif isinstance(o, (list, tuple)):
+            out.append("[")
+            stack.append("]")
+            stack.extend(reversed(o))
+        else:
+            out.append(o if isinstance(o, str) else repr(o))
+    return ",".join(out)
 
 
 def load_known(prop):
@@ -155,6 +183,17 @@ class Ctx(object):
 
         kwargs `_allowed` (tuple of exception classes) are re-raised to the caller untouched."""
         allowed = kwargs.pop("_allowed", ())
+        # the harness runs with a raised recursion limit for its own recursive helpers; library code gets what a user's
+        # interpreter gives it: the default 1000 frames counted from a shallow caller
+        old_limit = sys.getrecursionlimit()
+        depth = 0
+        f = sys._getframe()
+        while f is not None:
+            depth += 1
+            f = f.f_back
+        lowered = depth + USER_RECURSION_LIMIT < old_limit
+        if lowered:
+            sys.setrecursionlimit(depth + USER_RECURSION_LIMIT)
         try:
             return fn(*args, **kwargs)
         except allowed:
@@ -171,6 +210,9 @@ class Ctx(object):
                 self.fail(clause, key, "%s: %s (at %s:%s)" % (type(e).__name__, e, best[1], best[2]))
                 raise KnownSkip()
             raise
+        finally:
+            if lowered:
+                sys.setrecursionlimit(old_limit)
 
 
 class KnownSkip(Exception):
